@@ -467,14 +467,22 @@ def u_sac_target(ctx):
             if not (same_batch and np.array_equal(spy.calls[0][1], spy.calls[1][1])):
                 ctx.violation("sac-targets-not-a-function-of-the-key", {**info})
             # different key: new batch order and new next actions -> compare as multisets keyed by reward
-            a = dict(zip(np.asarray(spy.calls[0][0].rewards).tolist(), spy.calls[0][1].tolist()))
-            c = dict(zip(np.asarray(spy.calls[2][0].rewards).tolist(), spy.calls[2][1].tolist()))
+            # only bootstrapped (non-terminated) samples carry the next action in their target
+            def boot(call):
+                b, t = call
+                nd = ~(np.asarray(b.dones) & ~np.asarray(b.timeouts))
+                return {float(r): float(x) for r, x, keep in zip(np.asarray(b.rewards), t, nd) if keep}
+
+            a, c = boot(spy.calls[0]), boot(spy.calls[2])
             common = [k for k in a if k in c]
-            nd = np.asarray(spy.calls[0][0].dones) & ~np.asarray(spy.calls[0][0].timeouts)
-            if common and not nd.all() and all(a[k] == c[k] for k in common):
-                ctx.violation("sac-next-action-not-freshly-sampled", {**info, "common": len(common)})
+            if not common:
+                ctx.monitor("sac_fresh_sample_probes_without_common_bootstrapped_sample")
+            elif all(a[k] == c[k] for k in common):
+                ctx.violation("sac-next-action-not-freshly-sampled", {**info, "common_bootstrapped": len(common)})
+            else:
+                ctx.monitor("sac_fresh_sample_probes_decided")
     ctx.require("sac_target_vectors_observed", 10)
-    ctx.require("sac_fresh_sample_probes", 2)
+    ctx.require("sac_fresh_sample_probes_decided", 2)
 
 
 def u_sac_updates(ctx):
